@@ -12,7 +12,7 @@ def run(ctx):
             "client-auth certificate type, resumption mode none/session-id/RFC5077 ticket/TLS1.3 ticket PSK/TLS1.3 external PSK, extended master secret on/off, "
             "DTLS cookie on/off, payload plan). Oracle: both stacks complete; identical version/suite/(1.3) group/EMS that equal the pinned ones; tagged payloads "
             "of the planned sizes (1,100,16383,16384,16385,40000,200000 for TLS; 1,100,1000,1200 for DTLS) and bursts of 1..7-byte records round-trip bit-exact both ways, every second TLS 1.3 configuration makes both stacks pad application records to 1024-byte blocks, and every 7th (quick) / 4th (thorough) configuration also streams 300 one-record messages per direction (record sequence numbers cross a byte boundary under one key); "
-            "after clean shutdown the second connection is resumed on both stacks' view and data round-trips again. quick = every (role,version,suite) plus one-factor "
+            "after clean shutdown the second connection is resumed on both stacks' view and data round-trips again; a third connection offers the same resumption state to a peer that cannot use it (fresh OpenSSL context / MatrixSSL key set with other ticket keys and an emptied session cache) and must fall back to a full handshake that works. quick = every (role,version,suite) plus one-factor "
             "deviations per key-exchange family plus a few many-factor TLS 1.3 cases (seed-independent set); thorough = the full product. "
             "evaluations = configurations executed against OpenSSL; distinct_nontrivial = distinct configuration tuples that both stacks support and that completed all "
             "phases; configurations one stack cannot do are counted under not_mutually_supported_<why> and are neither passes nor violations.")
